@@ -578,7 +578,7 @@ func pageFrom(key []byte) *query.PageRequest { return &query.PageRequest{Key: ke
 
 func runNFT(run *ev.Run, c int) {
 	w := newNFTWorkload()
-	r := rig.New(rig.Options{Seed: fmt.Sprintf("nft-%d-%d", run.Seed, c), NumAccounts: 5, Balances: sdk.NewCoins(sdk.NewInt64Coin(rig.BondDenom, 1_000_000)), InflationOff: true})
+	r := rig.New(rig.Options{Seed: fmt.Sprintf("nft-%d-%d", run.Seed, c), NumAccounts: 5, Balances: sdk.NewCoins(sdk.NewInt64Coin(rig.BondDenom, 1_000_000)), InflationOff: true, SubSecond: c%2 == 1})
 	w.Attach(run, r)
 	r.Snapshot = func(ctx sdk.Context) any { return w.snapshot(ctx) }
 	blocks := tierN(run.Tier, 200, 450)
